@@ -86,6 +86,6 @@ PROPERTY = {
     "assumptions": ["values of one field share one kind (schema typing)", "no NaN (cannot enter through JSON/GraphQL)",
                     "limit/offset < 2^31 (non-negative GraphQL Int)",
                     "mixed int/float comparisons are specified as carried out in float64, mixed equality as exact"],
-    "outside_claim": ["min / max (math/big), average, grouping; integer sums beyond the window explored for known finding C08-sum-int-above-2p53 (one value in [2^53, 2^53+255])", "sum/average (fp.add chains time out in all solvers), min/max (math/big), countNode (reflect), group, _like family, array/JSON operators",
+    "outside_claim": ["average, grouping; min / max beyond two inline-array targets (floats from four constants, integers int8); integer sums beyond the window explored for known finding C08-sum-int-above-2p53 (one value in [2^53, 2^53+255])", "average (fp.add chains time out in all solvers), group, _like family, array/JSON operators",
                       "GraphQL parser, mapper and ExecRequest as a whole (the no-request-panics clause)", "commits plan node"],
 }
